@@ -76,6 +76,8 @@ class ComposedResponse(ComposedMessage):
 			self.response.status = 416
 			return False
 		else:
+			if range_.value.lower() != u'bytes':
+				return False  # RFC 7233 Section 3.1: a range unit which is not understood: ignore the field
 			return self.prepare_range(range_)
 
 	def range_conditions(self) -> Iterator[Union[bool, Body]]:
